@@ -363,8 +363,11 @@ func TestC20(t *testing.T) {
 				if name == "#" {
 					name = "a" // ${#:=W} and friends read as other forms
 				}
-				op := rapid.SampledFrom([]string{":=", "=", ":?", ":-", "+", ""}).Draw(rt, "pop")
+				op := rapid.SampledFrom([]string{":=", "=", ":?", ":-", "+", "", "%", "##"}).Draw(rt, "pop")
 				src := "${" + name + op + "W}"
+				if op == "%" || op == "##" {
+					src = "${" + name + op + "?}" // a pattern that removes something
+				}
 				if op == "" {
 					src = "${" + name + "}"
 				}
